@@ -1,40 +1,49 @@
 #!/usr/bin/env python3-vt
-"""usage: tools/eval_seeded.py <seeded dir> [--props C01,C09] [--tier quick]
-Applies /verif/seeded/<id>/patch.diff to /repo, runs the named checks (default: the property the change
-breaks) WITHOUT rewriting evidence, restores /repo, and records which checks raised a VIOLATION."""
-import json, os, subprocess, sys, time
+"""usage: tools/eval_seeded.py <seeded dir> [--props C01,C09] [--tier quick] [--workers N]
+Evaluates one seeded change in ISOLATION (so several can be evaluated at once and /repo is never touched):
+a scratch git worktree of /repo with patch.diff applied, a scratch copy of the harness crate pointing at it,
+the named checks (default: the property the change breaks) run against it WITHOUT rewriting evidence.
+Records which checks raised a VIOLATION in <seeded dir>/results.json. Removes the scratch copies."""
+import json, os, shutil, subprocess, sys, time
 d = os.path.abspath(sys.argv[1])
 args = sys.argv[2:]
 meta = json.load(open(os.path.join(d, "meta.json")))
 props = [meta["property"]]
 tier = "quick"
-workers = "8"
+workers = "5"
 for i, a in enumerate(args):
     if a == "--props": props = args[i + 1].split(",")
     if a == "--tier": tier = args[i + 1]
     if a == "--workers": workers = args[i + 1]
-if subprocess.run(["git", "-C", "/repo", "status", "--porcelain"], capture_output=True, text=True).stdout.strip():
-    print("/repo is not clean"); sys.exit(2)
-r = subprocess.run(["git", "-C", "/repo", "apply", os.path.join(d, "patch.diff")], capture_output=True, text=True)
-if r.returncode != 0:
-    print("patch does not apply:", r.stderr); sys.exit(2)
+tag = "%s_%d" % (meta["id"].replace("-", "_"), os.getpid())
+wt = "/tmp/eval_repo_" + tag
+crate = "/var/tmp/eval_crate_" + tag
+subprocess.run(["git", "-C", "/repo", "worktree", "add", "-q", wt, "HEAD"], check=True)
 results = {}
 try:
+    r = subprocess.run(["git", "-C", wt, "apply", os.path.join(d, "patch.diff")], capture_output=True, text=True)
+    if r.returncode != 0:
+        print("patch does not apply:", r.stderr); sys.exit(2)
+    shutil.copytree("/verif/kani_gecs", crate, ignore=shutil.ignore_patterns("target"))
+    ct = open(os.path.join(crate, "Cargo.toml")).read().replace('path = "/repo"', 'path = "%s"' % wt)
+    open(os.path.join(crate, "Cargo.toml"), "w").write(ct)
     for p in props:
         t0 = time.time()
-        env = dict(os.environ); env["VERIF_WORKERS"] = workers
+        env = dict(os.environ); env["VERIF_WORKERS"] = workers; env["GECS_REPO"] = wt; env["VERIF_KANI_CRATE"] = crate
         r = subprocess.run(["/verif/check", p, "--tier", tier, "--no-evidence"], capture_output=True, text=True, cwd="/verif", env=env)
         lines = r.stdout.splitlines()
         viol = [l for l in lines if l.startswith("VIOLATION")]
         detail = [l.strip() for l in lines if l.startswith("  harness=")]
         inc = [l for l in lines if l.startswith("INCONCLUSIVE")]
         results[p] = {"exit": r.returncode, "violations": len(viol), "first": detail[:3], "inconclusive": len(inc), "inconclusive_first": inc[:2], "wall_s": round(time.time() - t0), "tier": tier}
-        print(p, "exit", r.returncode, "violations", len(viol), "inconclusive", len(inc), "%ds" % (time.time() - t0))
+        print(meta["id"], p, "exit", r.returncode, "violations", len(viol), "inconclusive", len(inc), "%ds" % (time.time() - t0))
         for x in detail[:2]:
             print("   ", x[:220])
+        for x in inc[:1]:
+            print("   ", x[:220])
 finally:
-    subprocess.run(["git", "-C", "/repo", "checkout", "--", "."])
-    subprocess.run(["git", "-C", "/repo", "clean", "-fdq", "tests"]) if False else None
+    subprocess.run(["git", "-C", "/repo", "worktree", "remove", "--force", wt])
+    shutil.rmtree(crate, ignore_errors=True)
 path = os.path.join(d, "results.json")
 old = json.load(open(path)) if os.path.exists(path) else {}
 old.update(results)
